@@ -279,6 +279,14 @@ def run_case(case):
                 i = rng.choice(cons_lines); t = lines[i].split()
                 # find which block the line belongs to and whether that block has edges
                 corr.append(("constraint-edge-missing", i, lines[i].rstrip() + " zz_absent_node"))
+            # the first header line of a block loses its '#': the text then is a line outside every block (first block) or a malformed
+            # edge line of the previous block - unless it happens to look like an edge line (3 tokens), which is skipped
+            firsts = [i for i, l in enumerate(lines) if l.strip().startswith("#") and not l.strip().startswith("#S")
+                      and not any(x.strip().startswith("#") for x in ([y for y in lines[:i] if y.strip()][-1:]))]
+            firsts = [i for i in firsts if len(lines[i].strip()[1:].split()) != 3 and lines[i].strip()[1:].strip()]
+            if firsts:
+                i = rng.choice(firsts[:1] + firsts)
+                corr.append(("header-lost-hash", i, lines[i].replace("#", "", 1)))
         seen = set()
         for kind, i, new in corr:
             if (kind, i, new) in seen:
